@@ -442,6 +442,8 @@ func init() {
 	delete(intrinsics, "internal/abi.Escape")
 	registerFloatIntrinsics()
 	registerSyncMapIntrinsics()
+	registerAbiIntrinsics()
+	registerAtomicValueIntrinsics()
 }
 
 func (st *State) throwFatal(msg string) {
